@@ -129,4 +129,142 @@ def check_C01(tier, seed):
     return run.finish()
 
 
-CHECKS = {"C01": check_C01}
+
+def _programs(run, nv, quick, need_not=False, tag="", leaf_quick=None, leaf_full=None, sim_quick=1200,
+              sim_full=15000, maxleaves_bfs=2):
+    """Programs for grammar G1 (nv = 1) or G2 (nv >= 2): exhaustive BFS over the
+    bounded builder machine plus seeded random walks to larger trees."""
+    full = 45 if nv == 1 else (34 if nv == 2 else 43)
+    lq = leaf_quick or (12 if nv == 1 else 10)
+    lf = leaf_full or full
+    progs = run.export("GenQuery", f"G{nv}{tag}-bfs", "PROG", constants=dict(
+        NV=nv, LeafLimit=lq if quick else lf, MaxLeaves=maxleaves_bfs, MaxNot=1 if quick else 2, NeedNot=need_not),
+        invariants=("Export", "WellFormed"))
+    progs += run.export("GenQuery", f"G{nv}{tag}-sim", "PROG", constants=dict(
+        NV=nv, LeafLimit=full, MaxLeaves=4 if quick else 6, MaxNot=2, NeedNot=need_not),
+        simulate=sim_quick if quick else sim_full, depth=14 if quick else 22)
+    return progs
+
+
+def _world_and_doms(rng, nv, quick, cover_p=0.3):
+    """A world plus one domain per variable (sometimes shared: self-join)."""
+    if rng.random() < cover_p:
+        W = datasets.covering_world(9)
+    else:
+        W = datasets.random_world(rng, rng.randint(2, 6))
+    doms = datasets.domains_for(rng, W, nv, shared=rng.random() < 0.3, maxdom=4 if nv <= 2 else 3)
+    return W, doms
+
+
+# ---------------------------------------------------------------------- C02
+def check_C02(tier, seed):
+    run = Run("C02", tier, seed)
+    run.rule = ("programs over 2 and 3 variables (joins, self-joins, chained attributes, conditions on a subset of the "
+                "variables) x every selection list of the generator, BFS + random walks; each on random worlds and "
+                "domains; rows compared as a multiset when all variables are selected, else as a set; selected "
+                "attribute expressions compared by value; non-trivial = result neither empty nor the whole product")
+    run.assumptions = QUERY_ASSUMPTIONS
+    qc = QueryCheck(run)
+    rng = qc.rng
+    quick = tier == "quick"
+    for nv in (2, 3):
+        progs = _programs(run, nv, quick, sim_quick=800, sim_full=10000, leaf_quick=9 if nv == 2 else 8,
+                          leaf_full=24 if nv == 2 else 16)
+        if quick:
+            progs = rng.sample(progs, min(len(progs), 2500))
+        elif len(progs) > 60000:
+            progs = rng.sample(progs, 60000)
+            run.exhaustive = False
+        for p in progs:
+            for _ in range(1 if quick else 2):
+                W, doms = _world_and_doms(rng, nv, quick)
+                qc.add(W, [mk_query(p, doms)], [drain_ev()])
+    qc.execute(_nontrivial_rows)
+    return run.finish()
+
+
+# ---------------------------------------------------------------------- C03
+def _negate(c, form="fn"):
+    return {"k": "not", "c": c, "form": form}
+
+
+def check_C03(tier, seed):
+    run = Run("C03", tier, seed)
+    run.rule = ("for every condition c of the generator (G1 and G2; c may already contain negations): three queries "
+                "built from scratch - c, not_(c), not_(not_(c)) (also the ~ operator form) - each judged against "
+                "the denotation, and not_(not_(c)) must return the rows of c; plus generated trees that contain "
+                "negations at any depth; non-trivial = c and not_(c) both non-empty")
+    run.assumptions = QUERY_ASSUMPTIONS
+    qc = QueryCheck(run)
+    rng = qc.rng
+    quick = tier == "quick"
+    for nv in (1, 2):
+        progs = _programs(run, nv, quick, sim_quick=600, sim_full=8000, leaf_full=30 if nv == 1 else 20)
+        if quick:
+            progs = rng.sample(progs, min(len(progs), 1500))
+        elif len(progs) > 50000:
+            progs = rng.sample(progs, 50000)
+            run.exhaustive = False
+        for p in progs:
+            W, doms = _world_and_doms(rng, nv, quick, cover_p=0.5 if nv == 1 else 0.2)
+            if nv == 1:
+                doms = [list(range(1, len(W["objs"]) + 1))]
+            form = "op" if rng.random() < 0.3 else "fn"
+            p1 = dict(p, cond=_negate(p["cond"], form))
+            p2 = dict(p, cond=_negate(_negate(p["cond"], form), form))
+            qc.add(W, [mk_query(p, doms), mk_query(p1, doms), mk_query(p2, doms)],
+                   [drain_ev(1), drain_ev(2), drain_ev(3, eqto=1)])
+
+    def nontrivial(t):
+        evs = t["evs"]
+        if all(e.get("exc") == "none" for e in evs) and evs[0]["rows"] and evs[1]["rows"]:
+            return digest(t["qs"][0]["cond"])
+        return None
+    qc.execute(nontrivial)
+    return run.finish()
+
+
+# ---------------------------------------------------------------------- C06
+def check_C06(tier, seed):
+    run = Run("C06", tier, seed)
+    run.rule = ("descriptions in which every variable is selected (entity over one variable, set_of over all), "
+                "G1/G2 conditions, small domains so that 0, 1 and >=2 solutions all occur; per case: the(d).evaluate() "
+                "twice and an(d) drained; TLC computes the expected outcome class and value; non-trivial = "
+                "distinct (condition, outcome class) pairs, all three classes must occur")
+    run.assumptions = QUERY_ASSUMPTIONS + ["every variable of the query is selected (C06's stated domain)"]
+    qc = QueryCheck(run)
+    rng = qc.rng
+    quick = tier == "quick"
+    outcomes = set()
+    for nv in (1, 2):
+        progs = _programs(run, nv, quick, sim_quick=500, sim_full=6000, leaf_full=30 if nv == 1 else 20)
+        sels = [("entity", [{"k": "var", "i": 1}])] if nv == 1 else \
+            [("set_of", [{"k": "var", "i": 1}, {"k": "var", "i": 2}]), ("set_of", [{"k": "var", "i": 2}, {"k": "var", "i": 1}])]
+        if quick:
+            progs = rng.sample(progs, min(len(progs), 1500))
+        elif len(progs) > 40000:
+            progs = rng.sample(progs, 40000)
+            run.exhaustive = False
+        for p in progs:
+            desc, sel = rng.choice(sels)
+            p = dict(p, desc=desc, sel=sel)
+            W = datasets.random_world(rng, rng.randint(2, 5))
+            doms = datasets.domains_for(rng, W, nv, maxdom=3 if nv == 1 else 2)
+            q_the = mk_query(p, doms, quant="the")
+            if len(q_the["vars"]) != nv:
+                continue                      # a variable the condition does not mention: not all selected
+            q_an = mk_query(p, doms)
+            qc.add(W, [q_the, q_an], [{"op": "the", "qi": 1}, {"op": "the", "qi": 1}, drain_ev(2)])
+
+    def nontrivial(t):
+        ev = t["evs"][0]
+        outcomes.add(ev.get("out"))
+        return digest([t["qs"][0]["cond"], ev.get("out")])
+    qc.execute(nontrivial)
+    run.extra["outcome_classes_seen"] = sorted(o for o in outcomes if o)
+    if not {"value", "NoSolutionFound", "MultipleSolutionFound"} <= outcomes:
+        run.notes.append("not all three outcome classes occurred")
+    return run.finish()
+
+
+CHECKS = {"C01": check_C01, "C02": check_C02, "C03": check_C03, "C06": check_C06}
